@@ -16,16 +16,18 @@
   OBLIGATION c17_tokens_directive_definition
   OBLIGATION c17_tokens_plain
   OBLIGATION c17_tokens_plain_doc
+  OBLIGATION c17_tokens_federation_order
+  OBLIGATION c17_tokens_wf
+  OBLIGATION c17_chars
   OBLIGATION c17_witness_reason_quote
   OBLIGATION c17_witness_single_line_backslash
   OBLIGATION c17_witness_tag_backslash
   OBLIGATION c17_witness_block_triple_quote
   OBLIGATION c17_witness_interface_order
   OBLIGATION c17_witness_dynamic_registration
-  OPEN c17_tokens_wf
-  OPEN c17_chars
 
-  `c17_tokens` as first stated (no well-formedness hypothesis) is refuted: `c17_tokens_false`.
+  Nothing is left open: `c17_tokens` as first stated (no well-formedness hypothesis) is refuted
+  (`c17_tokens_false`), the corrected statement `c17_tokens_wf` is proved for every option set.
 
   All theorems are about the model with no defect toggle (`Defects.none` = the tree with the fix
   diffs applied); each toggle has a witness showing the statement fails with it.
@@ -187,7 +189,8 @@ theorem startsDunder_eq (n : Text) : startsDunder n = startsWith2Underscores n :
   unfold startsDunder startsWith2Underscores
   split <;> simp_all
 
-/-- PARTIAL `c17_tokens_wf`: for a plain (non-federation) export of a schema whose types are
+/-- The type definitions of a plain export (subsumed by `c17_tokens_wf`; kept as the statement
+    over the structural predicate `SkelType`): for a plain (non-federation) export of a schema whose types are
     well-formed (`SkelType`: names are Names; kinds, DESCRIPTIONS of types / fields / arguments /
     enum values / input fields in either style, fields, argument lists in both layouts, type
     references of any nesting, implements lists, union members, enum values, input fields,
@@ -213,7 +216,21 @@ theorem c17_tokens_partial (k : Kind) (S : Schema) (o : Opts) (ho : o.federation
     simp [typeExported, ho, startsDunder_eq]
   unfold typeDefsDoc at hne ⊢
   rw [hfilt] at hne ⊢
-  exact parse_typeDefs o ho _ (fun t ht => hS t ((List.mem_mergeSort.mp (List.mem_filter.mp ht).1))) hne
+  have hmem : ∀ t ∈ (sortByName TypeDef.name S.types).filter (typeExported o), t ∈ S.types :=
+    fun t ht => List.mem_mergeSort.mp (List.mem_filter.mp ht).1
+  have hx : ∀ L : List TypeDef, (∀ t ∈ L, SkelType t) → L.filterMap (xType o) = L.filterMap (dType o) := by
+    intro L hL
+    induction L with
+    | nil => rfl
+    | cons t L ih =>
+      have ha : TypeAttrs (tdAttrs t) := by
+        have := hL t List.mem_cons_self
+        cases t <;> first | exact this.2.1 | exact this.2
+      simp only [List.filterMap_cons, xType_plain o ho t ha, ih (fun x hx => hL x (List.mem_cons_of_mem _ hx))]
+  have hfm := hx _ (fun t ht => hS t (hmem t ht))
+  rw [← hfm] at hne ⊢
+  refine parse_typeDefs o _ (fun t ht => ⟨hS t (hmem t ht), ?_⟩) hne
+  cases t <;> simp [FedFields, ho]
 
 
 /-- a schema with an object (fields with arguments, list / non-null wrappers, implements, a
@@ -274,21 +291,224 @@ example : (∀ t ∈ fullWitness.types, SkelType t) ∧ typeDefsDoc {} fullWitne
 
 end Skeleton
 
--- ------------------------------------------------------------------ open
+-- ------------------------------------------------------------------ the statement without hypotheses is false
 
-/-- OPEN: the whole document: the reference parser reads the exported text as the description of
-    the registered schema (for schemas whose names are Names and whose values are well-formed).
-    Proved for the type definitions of schemas without directive applications, deprecations and
-    default values (descriptions included): `c17_tokens_partial`; missing: directive applications
-    and deprecations in context (the token lemmas `c17_strings_reason` / `_tag` are proved),
-    default values (C15's round trip), directive definitions, the schema block, federation
-    exports. -/
+/-- the whole document, as first stated: for EVERY schema and option set the reference parser
+    reads the exported text as the description of the registered schema.  False: the statement
+    has no well-formedness hypothesis (its documentation assumed one). -/
 def c17_tokens : Prop :=
   ∀ (k : Kind) (S : Schema) (o : Opts), ∃ present,
     (AGV.Spec.SdlParse.parseSchema (run Defects.none k S o)).map (fun d => cDoc d) =
       some (cDoc (AGV.Spec.SdlParse.describe o S (allDirectives S) (composeGroups (allDirectives S)) present))
 
-/-- OPEN: the glue between characters and tokens for the exporter's separators -/
-def c17_chars : Prop := c17_tokens
+section Refutation
+open AGV.Spec.SdlParse AGV.Lemmas.SdlLex
+
+/-- a scalar whose name is not a Name -/
+def percentWitness : Schema :=
+  { query := "Q".toList, mutation := none, ddefs := [], types := [.scalar "%".toList {} none] }
+
+theorem lexAll_percent0 (rest : Text) : ∀ f, lexAll f (' ' :: '%' :: rest) = none := by
+  intro f
+  rcases f with _ | _ | f
+  · rfl
+  · rw [lexAll_cons, if_pos (by decide)]; rfl
+  · rw [lexAll_cons, if_pos (by decide), lexAll_cons, if_neg (by decide), if_neg (by decide)]
+    have : lexToken ('%' :: rest) = none := by
+      unfold lexToken
+      simp only [show isPunct '%' = false by decide, show AGV.Spec.Literal.nameStart '%' = false by decide,
+        show isDig '%' = false by decide, show ('%' = '.') = False by decide, show ('%' = '-') = False by decide,
+        show ('%' = '"') = False by decide, if_false, Bool.false_eq_true, Bool.or_self, decide_false]
+    rw [this]; rfl
+
+theorem lexAll_percent (rest : Text) (f : Nat) :
+    lexAll f ('s' :: 'c' :: 'a' :: 'l' :: 'a' :: 'r' :: ' ' :: '%' :: rest) = none := by
+  cases f with
+  | zero => rfl
+  | succ f =>
+    have hn := nameOf_append "calar".toList (' ' :: '%' :: rest) (by decide) (by intro c r e; cases e; decide)
+    have e : 's' :: 'c' :: 'a' :: 'l' :: 'a' :: 'r' :: ' ' :: '%' :: rest = 's' :: ("calar".toList ++ ' ' :: '%' :: rest) := by simp
+    rw [e, lexAll_cons, if_neg (by decide), if_neg (by decide), lexToken_name _ _ (by decide) (by decide) (by decide), hn]
+    simp only [contTok, lexAll_percent0, Option.map_none]
+
+theorem types_percent :
+    (((sortByName TypeDef.name percentWitness.types).filter (typeExported {})).map (exportType Defects.none {})).flatten =
+      ['s', 'c', 'a', 'l', 'a', 'r', ' ', '%', '\n', '\n'] := by
+  have : sortByName TypeDef.name percentWitness.types = percentWitness.types := by simp [sortByName, percentWitness]
+  rw [this]; decide
+
+/-- REFUTATION of `c17_tokens` as first stated: the exporter writes the scalar named `%` as
+    `scalar %`, which is not even a token sequence (`%` starts no token), so the reference parser
+    reads no document at all.  The model is right (the real exporter writes names verbatim; the
+    registry API rejects such names earlier); the statement lacked its hypothesis: the corrected
+    statement is `c17_tokens_wf` (proved below, every option set). -/
+theorem c17_tokens_false : ¬ c17_tokens := by
+  intro h
+  obtain ⟨present, h⟩ := h .derived percentWitness {}
+  have : parseSchema (run Defects.none .derived percentWitness {}) = none := by
+    unfold run
+    rw [register_none]
+    unfold exportSdl
+    rw [types_percent]
+    unfold parseSchema tokens
+    simp only [List.cons_append, List.nil_append]
+    rw [lexAll_percent]
+  rw [this] at h
+  cases h
+
+end Refutation
+
+-- ------------------------------------------------------------------ the steps, in context
+
+section Steps
+open AGV.Core AGV.Core.PAst AGV.Spec.SdlParse AGV.Lemmas.SdlLex AGV.Lemmas.SdlValue AGV.Lemmas.SdlSkeleton
+
+/-- STEP 1, deprecations in context: whatever item it follows (what comes next must not continue
+    a Name), the text `write_deprecated` writes is the token sequence of the directive
+    application(s) `depApps`, which the reference parser's `Directives[Const]` reads as exactly
+    the deprecation `describe` requires — no reason, or ANY reason text. -/
+theorem c17_tokens_deprecation (d : Dep) (rest : Text) (ts more : List Tok) (hr : NameEnd rest) (h : Lx rest ts)
+    (hm : DirEnd more) :
+    Lx (writeDeprecated Defects.none d ++ rest) (dirsToks (depApps d) ++ ts) ∧
+    constDirs (dirsToks (depApps d) ++ more) = some (dDeprecated d, more) := by
+  refine ⟨Lx_deprecated d rest ts hr h, ?_⟩
+  rw [constDirs_toks (depApps d) (depApps_wf d) more hm, depApps_dDir]
+
+example : NameEnd "\n}".toList ∧ DirEnd [Tok.punct '}'] :=
+  ⟨nameEnd_of_ignored '\n' _ (by decide), dirEnd_punct _ _ (by decide) (by decide)⟩
+
+/-- STEP 2, directive applications in context: the text `MetaDirectiveInvocation::sdl` writes for
+    a list of applications with well-formed names and argument values (`dirWf`), after any item,
+    is the token sequence `dirsToks`, read back as exactly those applications. -/
+theorem c17_tokens_directives (ds : List DirApp) (hw : ∀ d ∈ ds, dirWf d = true) (rest : Text) (ts more : List Tok)
+    (hr : NameEnd rest) (h : Lx rest ts) (hm : DirEnd more) :
+    Lx (dirApps ds ++ rest) (dirsToks ds ++ ts) ∧
+    constDirs (dirsToks ds ++ more) = some (ds.map dDir, more) :=
+  ⟨Lx_dirApps ds hw rest ts hr h, constDirs_toks ds hw more hm⟩
+
+example : dirWf ⟨"auth".toList, [("roles".toList, .list [.str "a\"b".toList, .enum "X".toList]), ("level".toList, .int (-1))]⟩ = true := by
+  decide
+
+/-- STEP 3, default values and directive arguments: the text C15's printer writes for a
+    well-formed constant value (`svWf`: enum values and object keys are Names; any string, any
+    integer, any nesting), followed by anything that is ignored or a punctuator, is the token
+    sequence `svToks`, which the reference parser's `Value[Const]` reads as the value. -/
+theorem c17_tokens_default_value (v : SValue) (hv : svWf v = true) (rest : Text) (ts more : List Tok)
+    (hr : ValEnd rest) (h : Lx rest ts) :
+    Lx (printValue v ++ rest) (svToks v ++ ts) ∧
+    AGV.Spec.Parse.pValue P true (AGV.Spec.Parse.valueFuel (svToks v ++ more)) (svToks v ++ more) = some (v.toP, more) :=
+  ⟨Lx_value v hv rest ts hr h, pValue_toks v hv _ more (by simp [AGV.Spec.Parse.valueFuel]; omega)⟩
+
+example : svWf (.obj [("a".toList, .list [.int (-5), .str "q\"\n".toList, .null]), ("b".toList, .obj [("c".toList, .enum "RED".toList)])]) = true := by
+  decide
+
+/-- STEP 4a, directive definitions: the text `MetaDirective::sdl` writes for a well-formed
+    definition (description in either style, arguments with default values, `repeatable`,
+    locations) is the token sequence `dirDefToks`, read back as the definition `describe` requires. -/
+theorem c17_tokens_directive_definition (o : Opts) (d : DirDef) (hd : SkelDirDef d)
+    (rest : Text) (ts more : List Tok) (h : Lx rest ts) (hm : DefEnd more) :
+    Lx (directiveSdl Defects.none o d ++ '\n' :: rest) (dirDefToks o d ++ ts) ∧
+    pDef (dirDefToks o d ++ more) = some (dDirective d, more) :=
+  ⟨Lx_dirDef o d hd rest ts h, pDef_dirDef o d hd more hm⟩
+
+example : ∀ d ∈ systemDirectives ++ fullWitness.ddefs, SkelDirDef d := by
+  intro d hd
+  have h : (systemDirectives ++ fullWitness.ddefs).all dirDefOk = true := by decide
+  exact dirDefOk_sound (List.all_eq_true.mp h d hd)
+
+/-- STEP 4, THE WHOLE DOCUMENT OF A PLAIN EXPORT: for every schema that is well-formed
+    (`schemaOk`, a decidable check: names are Names, enum values are not true / false / null,
+    values are printable, non-empty field / member / value / location lists, no `__` field, no
+    deprecation on a type itself, locations are directive locations), registered either way,
+    and every non-federation option set (sorting of fields / arguments / enum values, single-line
+    descriptions, specifiedBy, indentation), the text the repaired exporter writes — lexed by the
+    specification's lexer, parsed by the reference parser — IS the document `describe` requires:
+    all type definitions, the directive definitions the exporter writes, the schema block. -/
+theorem c17_tokens_plain_doc (k : Kind) (S : Schema) (o : Opts) (ho : o.federation = false) (hS : schemaOk S = true) :
+    parseSchema (run Defects.none k S o) =
+      some (describe o S (allDirectives S) (composeGroups (allDirectives S)) (presentOf S)) := by
+  rw [run, register_none, parse_xDoc o S hS (by intro h; rw [ho] at h; cases h), xDoc_plain o ho S hS]
+
+/-- … in the shape of `c17_tokens` (the plain-export half of `c17_tokens_wf`, where the documents
+    are even EQUAL, not only equal up to directive order) -/
+theorem c17_tokens_plain (k : Kind) (S : Schema) (o : Opts) (ho : o.federation = false) (hS : schemaOk S = true) :
+    ∃ present,
+      (parseSchema (run Defects.none k S o)).map (fun d => cDoc d) =
+        some (cDoc (describe o S (allDirectives S) (composeGroups (allDirectives S)) present)) :=
+  ⟨presentOf S, by rw [c17_tokens_plain_doc k S o ho hS]; rfl⟩
+
+example : schemaOk fullWitness = true ∧ ({ sortedFields := true, singleLine := true, specifiedBy := true, useSpace := true, width := 4 } : Opts).federation = false :=
+  ⟨by decide, rfl⟩
+
+end Steps
+
+-- ------------------------------------------------------------------ every option set
+
+section Whole
+open AGV.Core AGV.Core.PAst AGV.Spec.SdlParse AGV.Lemmas.SdlLex AGV.Lemmas.SdlValue AGV.Lemmas.SdlSkeleton
+
+/-- STEP 5a, the one place where a federation export differs from `describe` in ORDER: on fields
+    (and object types) the exporter writes the custom directive applications before
+    @inaccessible / @tag, `describe` lists the federation attributes first.  As long as no custom
+    application is itself named `tag` / `inaccessible`, the comparison `cDirs` (stable sort by
+    name) cannot tell: any deprecation, any tags, any custom applications. -/
+theorem c17_tokens_federation_order (o : Opts) (a : Attrs) (h : o.federation = true → appsFedOk a = true) :
+    cDirs ((fieldApps o a).map dDir) = cDirs (dDirs o a) :=
+  cDirs_fieldApps o a (appsDisjoint o a h)
+
+example : appsFedOk { inacc := true, tags := ["t".toList], dirs := [⟨"auth".toList, []⟩, ⟨"zeta".toList, []⟩, ⟨"auth".toList, [("level".toList, .int 2)]⟩] } = true := by
+  decide
+
+/-- THE WHOLE DOCUMENT, corrected statement, EVERY option set (plain and federation exports,
+    compose, sorting, single-line descriptions, specifiedBy, indentation) and both ways of
+    registering: for every well-formed schema — `schemaOk` (decidable: names are Names, enum
+    values are not true / false / null, values are printable, non-empty field / member / value /
+    location lists, no `__` field, no deprecation on a type itself, locations are directive
+    locations) and, for a federation export, `federationOk` (decidable: no composable directive
+    definition, no `_service` / `_entities` field, no non-scalar type named `Any`, no custom
+    directive application named `tag` / `inaccessible`) — the text the repaired exporter writes,
+    lexed by the specification's lexer and parsed by the reference parser, is the description of
+    the registered schema (`cDoc`: directive applications compared up to the order of differently
+    named directives; the built-in directive definitions present are those the exporter wrote). -/
+theorem c17_tokens_wf (k : Kind) (S : Schema) (o : Opts) (hS : schemaOk S = true)
+    (hF : o.federation = true → federationOk S = true) : ∃ present,
+    (parseSchema (run Defects.none k S o)).map (fun d => cDoc d) =
+      some (cDoc (describe o S (allDirectives S) (composeGroups (allDirectives S)) present)) := by
+  refine ⟨presentOf S, ?_⟩
+  rw [run, register_none, parse_xDoc o S hS hF, Option.map_some, xDoc_cDoc o S hS hF]
+
+/-- a federation export with `extends` types, @inaccessible, tags, custom directive applications
+    next to them (repeated ones too), a scalar `Any`, a federation type -/
+def federationWitness : Schema :=
+  let a1 : Attrs := { inacc := true, tags := ["a\"b".toList, "c".toList],
+                      dirs := [⟨"auth".toList, []⟩, ⟨"zeta".toList, []⟩, ⟨"auth".toList, [("level".toList, .int 2)]⟩] }
+  let a2 : Attrs := { desc := some "dd".toList, inacc := true, tags := ["t".toList], dirs := [⟨"zeta".toList, []⟩] }
+  { query := "Q".toList, mutation := none, ddefs := [],
+    types := [ .object "Q".toList a2 true ["I".toList]
+                 [⟨"x".toList, { a1 with dep := .yes (some "old".toList) }, .named "Int".toList true,
+                    [⟨"y".toList, a1, .named "E".toList true, some (.enum "A".toList)⟩]⟩],
+               .interface "I".toList a2 true [] [⟨"x".toList, a1, .named "Int".toList true, []⟩],
+               .enum "E".toList a2 [("A".toList, a1)],
+               .input "In".toList a2 true [⟨"f".toList, a1, .named "Int".toList true, none⟩],
+               .union "U".toList a2 ["Q".toList],
+               .scalar "Any".toList {} none,
+               .scalar "_Any".toList {} none,
+               .scalar "S".toList a2 (some "u".toList) ] }
+
+example : schemaOk federationWitness = true ∧ federationOk federationWitness = true ∧
+    schemaOk fullWitness = true ∧ federationOk fullWitness = true := by decide
+
+/-- CHARACTERS TO TOKENS, every option set: the exported text of a well-formed schema is, for the
+    specification's lexer (`tokens`), exactly the token sequence `docToks` — every separator the
+    exporter writes (blanks, tabs, line ends, commas, the `\n\n` between definitions, either
+    argument layout, either description style) is ignored, every lexeme ends where the exporter
+    ends it. -/
+theorem c17_chars (k : Kind) (S : Schema) (o : Opts) (hS : schemaOk S = true)
+    (hF : o.federation = true → federationOk S = true) :
+    tokens (run Defects.none k S o) = some (docToks o S) := by
+  rw [run, register_none]
+  exact (Lx_document o S hS hF).tokens
+
+end Whole
 
 end AGV.Props.C17
